@@ -11,14 +11,15 @@ var verifErrInjected = errors.New("verif: injected transport error")
 
 // recording io.Writer with optional failure at the failAt-th call (1-based; 0 = never)
 type verifRecWriter struct {
-	calls  int
-	buf    []byte
-	failAt int
+	calls    int
+	buf      []byte
+	failAt   int
+	failFrom int // every call from this one on fails (0 = never)
 }
 
 func (w *verifRecWriter) Write(p []byte) (int, error) {
 	w.calls++
-	if w.calls == w.failAt {
+	if w.calls == w.failAt || (w.failFrom > 0 && w.calls >= w.failFrom) {
 		return 0, verifErrInjected
 	}
 	w.buf = append(w.buf, p...)
